@@ -1768,6 +1768,15 @@ func (self *Node) toGenericArrayUseNode() ([]Node, error) {
 	}
 
 	var s = (*linkedNodes)(self.p)
+	if s.Len() != nb {
+		// some nodes got unset, iterate to skip them
+		var out = make([]Node, 0, nb)
+		it := self.values()
+		for v := it.next(); v != nil; v = it.next() {
+			out = append(out, *v)
+		}
+		return out, nil
+	}
 	var out = make([]Node, nb)
 	s.ToSlice(out)
 
